@@ -40,6 +40,11 @@ import (
 
 var trace = os.Getenv("C09_TRACE") != ""
 
+const (
+	quickBudget    = 85 * time.Second
+	thoroughBudget = 27 * time.Minute
+)
+
 // Enumeration bound per crash point (m = effective keep/drop decisions at that point):
 // all 2^m subsets when m <= fullEnumM, otherwise every subset with at most boundDev(m)
 // departures from drop-all and from keep-all. Quick: 10 / 2. Thorough: 12 / 3 (2 above 20).
@@ -568,7 +573,7 @@ func main() {
 			return res
 		})
 	}
-	r := mc.Start("C09", "fault_enumeration", 85*time.Second, 27*time.Minute)
+	r := mc.Start("C09", "fault_enumeration", quickBudget, thoroughBudget)
 	r.Assumptions = []string{
 		"pebble's crashable MemFS is the model of a disk: synced bytes / synced directory entries always survive, every unsynced 4 KiB block and every unsynced directory entry independently survives or not; removed-but-unsynced entries survive (MemFS never resurrects them selectively); no bit rot, no torn 4 KiB block",
 		"crash images are produced by a shadow of MemFS's crash rules kept by the harness's vfs wrapper (MemFS.CrashClone draws its RNG in Go map order, so a scripted vector is not a stable subset); the shadow is validated at every crash point against the real CrashClone (0% and 100% byte-identical; every scripted single-flip clone is a member of the enumerated set)",
@@ -593,8 +598,17 @@ func main() {
 	heightsByScenario := map[string]map[int]int{}
 	checked, imagesCovered, sharedAcross := 0, 0, 0
 	globalSeen := map[string]bool{} // reference key | image hash: images already recovered for an earlier scenario
-	for _, sc := range scenarios(r.Quick()) {
+	// Under a deadline every scenario gets an equal share of what is left (a loaded machine
+	// must not starve the later scenarios); without time pressure the shares are never hit.
+	hardEnd := t0.Add(quickBudget)
+	if !r.Quick() {
+		hardEnd = t0.Add(thoroughBudget)
+	}
+	scs := scenarios(r.Quick())
+	for si, sc := range scs {
 		sc := sc
+		sliceEnd := time.Now().Add(time.Until(hardEnd) / time.Duration(len(scs)-si))
+		stop := func() bool { return r.Expired() || (si < len(scs)-1 && time.Now().After(sliceEnd)) }
 		if r.Expired() {
 			r.Note("scenario %s not run (deadline)", sc.Name)
 			continue
@@ -694,8 +708,16 @@ func main() {
 		}
 		var es []*imgEntry
 		refKey := fmt.Sprintf("%d|%v|%d|", sc.Blocks, sc.Journal, sc.big())
+		// images that exist before the first Commit() can only recover version 0 and continue with
+		// the genesis commit, which does not depend on the size of the blocks' large value
+		keyOf := func(e *imgEntry) string {
+			if e.started == 0 {
+				return fmt.Sprintf("pre-genesis|%d|%v|", sc.Blocks, sc.Journal) + e.hash
+			}
+			return refKey + e.hash
+		}
 		for _, e := range byHash {
-			if globalSeen[refKey+e.hash] {
+			if globalSeen[keyOf(e)] {
 				st.SharedWithEarlier++
 				sharedAcross++
 				continue
@@ -703,6 +725,10 @@ func main() {
 			es = append(es, e)
 		}
 		sort.Slice(es, func(a, b int) bool {
+			// images from the first creation of the DB last: if time runs out they matter least
+			if pa, pb := es[a].started == 0, es[b].started == 0; pa != pb {
+				return pb
+			}
 			if es[a].cp != es[b].cp {
 				return es[a].cp < es[b].cp
 			}
@@ -729,7 +755,7 @@ func main() {
 			bz, _ := json.Marshal(jobs[len(jobs)/2])
 			_ = os.WriteFile(p+"."+sc.Name, append(bz, '\n'), 0o644)
 		}
-		results, crashed := mc.Map[job, result](pool, jobs, r.Expired)
+		results, crashed := mc.Map[job, result](pool, jobs, stop)
 		hs := map[int]int{}
 		heightsByScenario[sc.Name] = hs
 		done := 0
@@ -747,7 +773,7 @@ func main() {
 				continue
 			}
 			done++
-			globalSeen[refKey+e.hash] = true
+			globalSeen[keyOf(e)] = true
 			imagesCovered += e.count
 			heights[res.H]++
 			hs[res.H]++
@@ -763,7 +789,7 @@ func main() {
 		fmt.Printf("   instrumented run %.1fs, enumeration %.1fs, recovery of %d/%d images %.1fs; recovered versions %v\n", runWall.Seconds(), tRec.Sub(tEnum).Seconds(), done, len(es), time.Since(tRec).Seconds(), hs)
 		if done < len(es) {
 			r.Exhaustive = false
-			r.Note("deadline: scenario %s: %d of %d distinct images recovered (in crash-point order); the rest was not checked", sc.Name, done, len(es))
+			r.Note("deadline / time share of the scenario used up: scenario %s: %d of %d distinct images recovered (crash points after the first Commit first, in crash-point order); the rest was not checked", sc.Name, done, len(es))
 		}
 	}
 	fmt.Printf("total: %d crash points, %d images, %d distinct images, %d recovered and checked, wall %.1fs\n", totalPoints, totalImages, totalDistinct, checked, time.Since(t0).Seconds())
@@ -785,7 +811,7 @@ func main() {
 		"recovered_versions":              fmt.Sprint(heights),
 		"recovered_versions_by_scen":      fmt.Sprint(heightsByScenario),
 		"per_scenario":                    stats,
-		"bound":                           fmt.Sprintf("all keep/drop subsets when a crash point has <= %d effective decisions, else all subsets with <= %d departures from drop-all and from keep-all", fullEnumM, boundDev),
+		"bound":                           fmt.Sprintf("all keep/drop subsets when a crash point has m <= %d effective decisions, else all subsets with <= %d (m <= 20) / <= %d (m > 20) departures from drop-all and from keep-all", fullEnumM, boundDev(20), boundDev(21)),
 		"worker_crashes":                  pool.Crashes,
 	}
 	r.Finish(cov)
